@@ -263,7 +263,7 @@ fn exec_egr(n: usize, gens: Vec<Vec<usize>>, red: Vec<usize>, order: usize) -> C
         let idp: Vec<usize> = (0..n).collect();
         // `order / 3` fresh slots are drawn first: the class's own slot names (and with them the iteration order of the hash
         // sets inside its group) then differ from case to case
-        for _ in 0..order / 3 {
+        for _ in 0..(order / 3) % 8 {
             let _ = Slot::fresh();
         }
         let mut eg: EGraph<Main> = EGraph::default();
@@ -291,12 +291,37 @@ fn exec_egr(n: usize, gens: Vec<Vec<usize>>, red: Vec<usize>, order: usize) -> C
                 steps.extend((gi..gens.len()).map(|i| (true, i)));
             }
         }
+        // `order / 24`: the class is also merged with another leaf class of the same arity (1: `f = g`, 2: `g = f`; argument
+        // order rotated) — before the other steps if there is a redundancy step first, after them otherwise.  What compares
+        // equal among the copies of `f` does not change, whichever of the two classes survives
+        let merge = if n <= 3 { order / 24 } else { 0 };
+        let other = |eg: &mut EGraph<Main>| {
+            let gv = if n == 2 { 11 } else { 12 };
+            let rot: Vec<usize> = (0..n).map(|i| (i + 1) % n).collect();
+            eg.add_expr(to_recexpr::<Main>(&ATerm { v: gv, fields: rot.iter().map(|&i| CField::Slot(om[i])).collect(), children: vec![] }))
+        };
+        let merge_first = order % 3 == 1;
+        let do_merge = |eg: &mut EGraph<Main>, tags: &mut Vec<String>| {
+            if merge > 0 {
+                let o = other(eg);
+                let r = if merge == 1 { guarded(|| eg.union(&t, &o)) } else { guarded(|| eg.union(&o, &t)) };
+                if r.is_err() {
+                    tags.push("viol:panic".to_string());
+                }
+            }
+        };
+        if merge_first {
+            do_merge(&mut eg, &mut tags);
+        }
         for (is_sym, i) in steps {
             let u = if is_sym { leaf(&gens[i]) } else { leaf_red(i) };
             let tu = eg.add_expr(to_recexpr::<Main>(&u));
             if guarded(|| eg.union(&t, &tu)).is_err() {
                 tags.push("viol:panic".to_string());
             }
+        }
+        if !merge_first {
+            do_merge(&mut eg, &mut tags);
         }
         let cont: String = qs
             .iter()
@@ -436,6 +461,13 @@ pub fn run(ctx: &mut Ctx) {
             order = if rng.chance(3, 4) { 0 } else { 2 };
         }
         order += 3 * rng.below(8);
+        if n <= 3 && rng.chance(1, 2) {
+            order += 24 * rng.range(1, 2);
+            if rng.chance(1, 2) {
+                // no redundant position: the merged classes keep all their slots, and the whole group has to move over
+                red.clear();
+            }
+        }
         ctx.emit(exec_egr(n, gens, red, order));
     }
     // random: 1-4 generators on 5 and 6 slots
